@@ -345,9 +345,51 @@ def std_evidence(ck, prefixes, scripts, gscripts, stats, impl_out, extra=None):
     ]
 
 
+def whole_programs(ck, n, policies=("default",)):
+    """generated C++ programs: real classes (virtual inheritance, abstract classes), the real registration
+    templates in several groupings, the real macros, std_rtti; every call compared with the specification
+    oracle. Returns the evidence entry; records a violation on a difference."""
+    import hprog
+    rng = random.Random(repr((ck.seed, ck.prop, "whole-programs")))
+    progs, scripts, meta = [], [], []
+    for i in range(n):
+        reg = gen.gen_registry(rng, n_classes=rng.randint(3, 8), shapes=["V", "VV", "VNV", "PV", "NV", "P", "VVV", "NVVN"], abstract_p=0.2)
+        while not reg.methods:
+            reg = gen.gen_registry(rng, n_classes=rng.randint(3, 8), shapes=["V", "VV", "VNV", "PV", "NV", "P", "VVV", "NVVN"], abstract_p=0.2)
+        grouping = ["one", "direct", "split"][i % 3]
+        pol = policies[i % len(policies)]
+        src, sc = hprog.prog_dispatch(reg, rng, grouping=grouping, policy=pol)
+        name = "wp%d-%s-%s" % (i, grouping, reg.family)
+        progs.append((name, src))
+        scripts.append((name, ["policy plain"] + sc))
+        meta.append({"program": name, "classes": len(reg.parents), "multiple_inheritance": any(len(p_) > 1 for p_ in reg.parents),
+                     "abstract": sum(1 for a_ in reg.abstract if a_), "methods": len(reg.methods), "grouping": grouping, "policy": pol})
+    res = hprog.build_and_run(progs, jobs=16)
+    orc = verif.run_model(scripts, mode="--oracle")
+    calls = 0
+    for (name, src), (_, sc), mt in zip(progs, scripts, meta):
+        rc, so, se = res[name]
+        got, want = so.splitlines(), orc.get(name, [])
+        mt["calls"] = max(0, len(got) - 1)
+        calls += mt["calls"]
+        if (rc != 0 or got != want) and not any(f_ for _, f_ in ck.violations):
+            d_ = [(k_, a_, b_) for k_, (a_, b_) in enumerate(zip(got, want)) if a_ != b_][:3]
+            found = rc == 0 and bool(d_)
+            call_lines = [l for l in sc if l.startswith(("update", "call "))]
+            ck.violation(verif.write_replay(ck.prop, name, {
+                "property": ck.prop,
+                "kind": ("failing input: a compiled program (real registration templates, macros and std_rtti) runs another definition, or reports another error, than the specification prescribes"
+                         if found else "the generated program does not compile, crashed, or printed fewer lines than the oracle"),
+                "first_differences(line, program, specification)": d_,
+                "calls": [call_lines[k_] for k_, _, _ in d_ if k_ < len(call_lines)],
+                "rc": rc, "stderr": se[-1500:], "oracle_script": sc, "source": src}), found)
+    return {"programs": len(progs), "calls_compared_with_the_specification": calls, "cases": meta}
+
+
 def check_C01(ck):
     r = check_dispatch_family(ck, 1200, 20000, "C01: tables, slots, dispatch data and every call outcome")
-    std_evidence(ck, ["C01"], *r[:4])
+    wp = whole_programs(ck, tier_n(ck, 12, 90), policies=("default", "default", "::yorel::yomm2::policy::debug"))
+    std_evidence(ck, ["C01"], *r[:4], extra={"whole_programs": wp})
 
 
 def c03_next_cells(scripts, impl_out):
@@ -1384,7 +1426,9 @@ def check_C10(ck):
     if f and not ck.violations:
         f[2].update(property="C10", script=f[1])
         ck.violation(verif.write_replay("C10", f[0], f[2]), True)
+    wp = whole_programs(ck, tier_n(ck, 6, 40))
     ck.coverage = proof_coverage(ck, ["C10"], {
+        "whole_programs_under_std_rtti": wp,
         "evaluations": len(scripts), "distinct_nontrivial": len(groups),
         "rule": "each abstract registry instantiated under six RTTI / lookup flavours (custom ids with identity projection hashed and checked, many-to-one "
                 "projection with alias ids, deferred ids, small integer ids unhashed, v-table pointer map, unchecked hash), 1-3 updates, all call tuples "
@@ -1392,7 +1436,7 @@ def check_C10(ck):
         "flavours": flavours, "traces_validated_against_impl": len(scripts),
         "samples": [{"name": n_, "script": ls[:30]} for n_, ls in scripts[:1]],
     })
-    ck.assumptions = ["std_rtti itself (typeid / type_index) is exercised by the H-prog programs; H-dyn uses integer ids carried by the object",
+    ck.assumptions = ["std_rtti itself (typeid / type_index) is exercised by the generated whole programs (real classes with virtual inheritance, every call compared with the specification); H-dyn uses integer ids carried by the object",
                       "a hash search failure is an allowed, reported outcome (C05)"]
 
 
